@@ -40,3 +40,5 @@ pub fn strs(v: &Value) -> Vec<String> {
 		.map(|a| a.iter().map(|x| x.as_str().expect("string").to_owned()).collect())
 		.unwrap_or_default()
 }
+
+pub mod evgen;
